@@ -33,7 +33,8 @@ def patterns(sig, r, beh):
         return {"pattern": "legacy-file-disagreement", "file": base}
     at = steps[m["step"]]
     before = steps[:m["step"]]
-    sw = [s["args"]["api"] for s in before if s["op"] == "WriteSds"]
+    # ("DFSDS" = the DFSD interface writing by hyperslabs: the same writer family)
+    sw = [("DFSD" if s["args"]["api"] == "DFSDS" else s["args"]["api"]) for s in before if s["op"] == "WriteSds"]
     rw = [(s["args"]["api"], s["args"]["il"]) for s in before if s["op"] == "WriteRas"]
     r8special = any(s["op"] == "WriteRas" and s["args"]["api"] == "DFR8" and (s["args"]["pal"] != 0 or s["args"]["comp"] == "rle") for s in before)
     # (a) a dataset added by DFSD to a file that has SD structure is invisible to SD / NC
